@@ -2,8 +2,9 @@
 //! notifications and read back its copy of the documents (file cache through the cfg(erg_verif) hook, and VFS).
 //!
 //! case (0 text ((line char) ...))     -> per position: byte index of els::pos_to_byte_index, or -999 on panic
-//! case (1 hid (notif ...))            -> per notification (rc (doc present cache_text cache_ver vfs_text) ...) for every
-//!                                        document of the history; rc: 0 ok | 1 dispatch returned Err | -999 panic
+//! case (1 hid (notif ...))            -> per notification (rc (present cache_text cache_ver vfs_present vfs_text) ...) with
+//!                                        one entry per document 0..ndocs-1 of the history;
+//!                                        rc: 0 ok | 1 dispatch returned Err | -999 panic (history stops there)
 //!     notif  = (0 doc ver text)            textDocument/didOpen
 //!            | (1 doc ver (change ...))    textDocument/didChange
 //!     change = (0 text)                    full text (no range)
@@ -15,23 +16,146 @@
 mod sx;
 use std::cell::RefCell;
 use std::panic::{catch_unwind, AssertUnwindSafe};
-use std::path::PathBuf;
 
 use els::{NormalizedUrl, Server};
 use erg_common::vfs::VFS;
+use molc::FakeClient;
 use serde_json::{json, Value};
 use sx::Sx;
 
-type Client = molc_client::Client;
-mod molc_client {
-    // FakeClient<Server> is the return type of Server::bind_fake_client(); named through a helper so that the
-    // harness does not need its own dependency on molc
-    pub type Client = <fn() -> Ret as Helper>::Out;
-    pub struct Ret;
-    pub trait Helper {
-        type Out;
+const WS: &str = "/tmp/ergv-textsync-ws";
+
+thread_local! {
+    static CLIENT: RefCell<Option<FakeClient<Server>>> = RefCell::new(None);
+}
+
+fn new_client() -> FakeClient<Server> {
+    let mut client = Server::bind_fake_client();
+    client.request_initialize().expect("initialize");
+    client.notify_initialized().expect("initialized");
+    client
+}
+
+fn path_of(hid: i128, doc: i128) -> String {
+    format!("{WS}/h{hid}_d{doc}.er")
+}
+
+fn url_of(hid: i128, doc: i128) -> String {
+    format!("file://{}", path_of(hid, doc))
+}
+
+fn pos(l: i128, c: i128) -> Value {
+    json!({"line": l as u64, "character": c as u64})
+}
+
+fn notif_json(hid: i128, n: &Sx) -> Value {
+    let doc = n.nth(1).z();
+    let ver = n.nth(2).z() as i64;
+    if n.nth(0).z() == 0 {
+        json!({"jsonrpc": "2.0", "method": "textDocument/didOpen", "params": {
+            "textDocument": {"uri": url_of(hid, doc), "languageId": "erg", "version": ver, "text": n.nth(3).string()}}})
+    } else {
+        let changes: Vec<Value> = n
+            .nth(3)
+            .l()
+            .iter()
+            .map(|c| {
+                if c.nth(0).z() == 0 {
+                    json!({"text": c.nth(1).string()})
+                } else {
+                    json!({"range": {"start": pos(c.nth(1).z(), c.nth(2).z()), "end": pos(c.nth(3).z(), c.nth(4).z())},
+                           "text": c.nth(5).string()})
+                }
+            })
+            .collect();
+        json!({"jsonrpc": "2.0", "method": "textDocument/didChange", "params": {
+            "textDocument": {"uri": url_of(hid, doc), "version": ver}, "contentChanges": changes}})
     }
-    impl<T> Helper for fn() -> T {
-        type Out = T;
+}
+
+fn observe(client: &FakeClient<Server>, hid: i128, ndocs: i128) -> Vec<Sx> {
+    let mut out = vec![];
+    for d in 0..ndocs {
+        let uri = NormalizedUrl::parse(&url_of(hid, d)).expect("url");
+        let (present, text, ver) = match client.server.verif_cached_document(&uri) {
+            Some((t, v)) => (1, t, v as i128),
+            None => (0, String::new(), 0),
+        };
+        // VFS.read falls back to the real file system: the paths used here do not exist on disk
+        let (vp, vt) = match VFS.read(path_of(hid, d)) {
+            Ok(t) => (1, t),
+            Err(_) => (0, String::new()),
+        };
+        out.push(Sx::L(vec![Sx::Z(present), Sx::from_str_cp(&text), Sx::Z(ver), Sx::Z(vp), Sx::from_str_cp(&vt)]));
     }
+    out
+}
+
+fn history(case: &Sx) -> Sx {
+    let hid = case.nth(1).z();
+    let notifs = case.nth(2).l();
+    let ndocs = notifs.iter().map(|n| n.nth(1).z() + 1).max().unwrap_or(0);
+    let mut out = vec![];
+    CLIENT.with(|cell| {
+        let mut slot = cell.borrow_mut();
+        for n in notifs {
+            if slot.is_none() {
+                *slot = Some(new_client());
+            }
+            let client = slot.as_mut().unwrap();
+            let msg = notif_json(hid, n);
+            let r = catch_unwind(AssertUnwindSafe(|| client.server.dispatch(msg).is_ok()));
+            match r {
+                Ok(ok) => {
+                    let mut v = vec![Sx::Z(if ok { 0 } else { 1 })];
+                    v.extend(observe(client, hid, ndocs));
+                    out.push(Sx::L(v));
+                }
+                Err(e) => {
+                    let msg = if let Some(s) = e.downcast_ref::<String>() {
+                        s.clone()
+                    } else if let Some(s) = e.downcast_ref::<&str>() {
+                        s.to_string()
+                    } else {
+                        "panic".to_string()
+                    };
+                    out.push(Sx::L(vec![Sx::Z(-999), Sx::from_str_cp(&msg)]));
+                    // the server's state after an unwound handler is unspecified: start a new one
+                    *slot = None;
+                    break;
+                }
+            }
+        }
+    });
+    Sx::L(out)
+}
+
+fn positions(case: &Sx) -> Sx {
+    let text = case.nth(1).string();
+    Sx::L(
+        case.nth(2)
+            .l()
+            .iter()
+            .map(|p| {
+                let (l, c) = (p.nth(0).z() as u32, p.nth(1).z() as u32);
+                match catch_unwind(AssertUnwindSafe(|| els::verif_pos_to_byte_index(&text, l, c))) {
+                    Ok(i) => Sx::Z(i as i128),
+                    Err(_) => Sx::Z(-999),
+                }
+            })
+            .collect(),
+    )
+}
+
+fn run(case: &Sx) -> Sx {
+    match case.nth(0).z() {
+        0 => positions(case),
+        _ => history(case),
+    }
+}
+
+fn main() {
+    std::fs::create_dir_all(WS).expect("workspace dir");
+    std::env::set_current_dir(WS).expect("chdir");
+    sx::serve(run);
 }
